@@ -3,36 +3,47 @@
 //   --stress ROUNDS --seed S --out FILE [--ms T]     (T: stop starting new batches after T ms of wall time)
 //
 // REAL threads, no ctl::Controller (the DISPENSO_VERIF_POINT hooks are inert, the futex is the real
-// one), truly concurrent.  kThreads persistent worker threads; the work is organised in BATCHES of
-// kRounds rounds.  A batch has one fresh lock object, one configuration (lock flavour, number of
-// active threads, role of every thread) and ONE observation record; every round of the batch gives
-// every active thread a short random program (1-3 lock/unlock segments drawn from the seed, with
-// random small spin offsets) and releases all of them at once through a start barrier, so that the
-// few-instruction windows of the lock (optimistic reader add / back-out, writer bit set / rolled
-// back, drain + futex sleep / wake, upgrade, downgrade) overlap all the time.
+// one), truly concurrent.  kThreads persistent worker threads; the work is organised in BATCHES.  A
+// batch has one fresh lock object, one configuration (lock flavour, number of active threads, role
+// of every thread), kRounds short random programs per thread (1-3 lock/unlock segments drawn from
+// the seed, with random small spin offsets) and ONE observation record.  Two kinds of batches:
+//   "step"  every round (= one program per thread) starts at a barrier that releases all threads at
+//           once, so that the few-instruction windows of the lock (optimistic reader add / back-out,
+//           writer bit set / rolled back, drain + futex sleep / wake, upgrade, downgrade) collide
+//           again and again from the same starting line; after every round the lock is quiescent
+//           and is probed (see below).  rounds = kRounds.
+//   "free"  one barrier, then every thread runs its kRounds programs kLaps times back to back: the
+//           threads drift against each other, the lock is under contention all the time, a thread that
+//           is preempted in the middle of an operation leaves the others running.  One probe at the
+//           end.  rounds = kRounds * kLaps.  (A barrier costs a scheduling quantum on a busy
+//           machine; these batches keep the number of racing operations per second up there.)
+// The engine gives both kinds the same share of the wall time.
 //
 // Protected data: two plain (non-atomic; volatile only to keep the compiler from fusing the
 // accesses) 64-bit counters a, b.  A write section reads both, stores a+1, spins a little, stores
-// b+1, re-reads a; a read section copies a, spins a little, copies b.  After every round, when all
-// threads have left the lock, the thread that left last probes the quiescent lock through the public API
-// (try_lock must succeed, then unlock; try_lock_shared must succeed, then unlock_shared).
+// b+1, re-reads a; a read section copies a, spins a little, copies b.  Whenever all threads have left
+// the lock (after every round of a step batch, at the end of a free batch) the thread that left
+// last probes the quiescent lock through the public API (try_lock must succeed, then unlock;
+// try_lock_shared must succeed, then unlock_shared).
 //
-// The coordinating main thread never touches the lock: it is the watchdog.  If a round (or a probe)
-// does not finish within 10 s it writes the record of the batch with "stuck":1, flushes and
-// _exit(0)s; the validator (spec/rwlock/RWLockObs.tla) rejects that record.
+// The coordinating main thread never touches the lock: it is the watchdog.  If the threads do not
+// come back within 10 s it writes the record of the batch with "stuck":1, flushes and _exit(0)s;
+// the validator (spec/rwlock/RWLockObs.tla) rejects that record.
 //
 // Record (one per batch; per-thread arrays are indexed by worker, inactive workers are absent):
-//   {"e":"Batch","lock":"RWLock","slots":1,"kind":"rw"|"upg","batch":i,"rounds":64,"stuck":0|1,
+//   {"e":"Batch","lock":"RWLock","slots":1,"kind":"rw"|"upg","mode":"step"|"free","batch":i,
+//    "rounds":n            programs per thread
+//    "stuck":0|1,
 //    "role":["W","R",..]   W may write-lock (and read), R only reads, U the single write-locker of an upgrade batch
-//    "fin":[..]            rounds finished by each thread
+//    "fin":[..]            programs finished by each thread
 //    "inc":[..]            write sections executed (each increments a and b once)
 //    "wtorn":[..]          write sections that found a != b on entry or found a changed under them
 //    "snaps":[..] "torn":[..]   read sections executed / read sections that copied a != b
 //    "back":[..]           sections that saw a smaller than the same thread saw before
 //    "tl":[..] "tlok":[..] try_lock calls / successes;  "ts":[..] "tsok":[..] try_lock_shared calls / successes
-//    "a":A,"b":B           the counters after the last round
+//    "a":A,"b":B           the counters after the batch
 //    "probes":P,"ptry":n,"psh":n   quiescent probes done / try_lock successes / try_lock_shared successes
-//    "word":0|1}           0 iff every lock word is 0 after the last round
+//    "word":0|1}           0 iff every lock word is 0 after the batch
 #pragma once
 
 #include <unistd.h>
@@ -51,7 +62,8 @@
 namespace stress {
 
 constexpr int kThreads = 4;
-constexpr int kRounds = 64; // rounds per batch (= per record)
+constexpr int kRounds = 128; // programs per thread and batch
+constexpr int kLaps = 8; // a free batch runs them this many times
 constexpr int kMaxSeg = 3;
 
 enum SegType : uint8_t {
@@ -88,7 +100,8 @@ struct alignas(64) Cell {
 };
 
 struct alignas(64) PerThread {
-  std::atomic<long long> done{-1}; // last phase finished
+  std::atomic<long long> done{-1}; // last ticket acknowledged
+  std::atomic<int> nfin{0}; // programs finished in the current batch
   Stats pub; // published before `done` is stored
   char pad[64];
 };
@@ -107,7 +120,9 @@ inline long long nowNs() {
 // Everything the workers share.  Static storage: a stuck worker outlives the run.
 template <class Adapter>
 struct Shared {
-  std::atomic<long long> go{-1}; // number of the round to run; -2 = exit
+  std::atomic<long long> go{-1}; // ticket (one per barrier); -2 = exit
+  std::atomic<int> freeMode{0}; // 1: run all programs kLaps times;  0: run program `round`
+  std::atomic<int> round{0};
   std::atomic<Adapter*> lock{nullptr};
   std::atomic<int> active{0};
   std::atomic<int> left{0}; // threads that have finished their program of the current round
@@ -123,6 +138,7 @@ struct Worker {
   int me;
   Stats st;
   uint64_t lastSeen = 0;
+  int nfin = 0;
 
   void writeSection(unsigned cs) {
     uint64_t x = sh.a.v, y = sh.b.v;
@@ -213,6 +229,13 @@ struct Worker {
     }
   }
 
+  void runProg(Adapter& lk, const Prog& p) {
+    spin(p.start);
+    for (int k = 0; k < p.nseg; ++k)
+      runSeg(lk, p.seg[k]);
+    sh.th[me].nfin.store(++nfin, std::memory_order_relaxed);
+  }
+
   void loop() {
     long long last = -1;
     unsigned idle = 0;
@@ -229,24 +252,28 @@ struct Worker {
       if (g == -2)
         return;
       last = g;
-      // every worker acknowledges every round (also the ones in which it has nothing to do), so that no
-      // worker can lag behind and read the configuration of a later round
+      // every worker acknowledges every ticket (also when it has nothing to do), so that no worker can
+      // lag behind and read the configuration of a later one
       const int active = sh.active.load(std::memory_order_relaxed);
       if (me < active) {
         Adapter& lk = *sh.lock.load(std::memory_order_relaxed);
-        long long r = g % kRounds;
-        if (r == 0) { // first round of a batch
+        const bool freeMode = sh.freeMode.load(std::memory_order_relaxed) != 0;
+        const int r0 = sh.round.load(std::memory_order_relaxed);
+        if (r0 == 0) { // first ticket of a batch
           st = Stats();
           lastSeen = 0;
+          nfin = 0;
         }
-        const Prog& p = sh.prog[r][me];
-        spin(p.start);
-        for (int k = 0; k < p.nseg; ++k)
-          runSeg(lk, p.seg[k]);
+        if (!freeMode)
+          runProg(lk, sh.prog[r0][me]);
+        else
+          for (int lap = 0; lap < kLaps; ++lap)
+            for (int r = 0; r < kRounds; ++r)
+              runProg(lk, sh.prog[r][me]);
         sh.th[me].pub = st;
         if (sh.left.fetch_add(1, std::memory_order_acq_rel) + 1 == active) {
-          // this thread is the last one to finish its program: everybody has left the lock, which must
-          // now behave like a fresh one
+          // this thread is the last one to finish: everybody has left the lock, which must now behave
+          // like a fresh one
           sh.probes.fetch_add(1, std::memory_order_relaxed);
           if (lk.try_lock()) {
             sh.ptry.fetch_add(1, std::memory_order_relaxed);
@@ -286,7 +313,6 @@ int run(const drv::Args& a) {
   if (!f)
     return 2;
   long long rounds = a.num("stress", 10000);
-  long long batches = (rounds + kRounds - 1) / kRounds;
   const long long budgetMs = a.num("ms", 0);
   uint64_t rng = (uint64_t)a.num("seed", 1) * 0x9e3779b97f4a7c15ULL + 0x51;
   const long long graceNs = 10LL * 1000 * 1000 * 1000;
@@ -298,9 +324,9 @@ int run(const drv::Args& a) {
       w.loop();
     });
   auto rnd = [&](unsigned n) { return (unsigned)(ctl::splitmix(rng) % n); };
-  long long doneRounds = 0, stuck = 0;
+  long long doneRounds = 0, stuck = 0, ticket = -1, tStep = 0, tFree = 0;
   const long long tStart = nowNs();
-  for (long long bi = 0; bi < batches && !stuck; ++bi) {
+  for (long long bi = 0; doneRounds < rounds && !stuck; ++bi) {
     if (budgetMs > 0 && bi > 0 && nowNs() - tStart > budgetMs * 1000000LL)
       break; // wall-clock budget (a loaded machine): fewer rounds, never a different verdict
     int flavour = (int)rnd((unsigned)Adapter::kFlavours);
@@ -353,8 +379,13 @@ int run(const drv::Args& a) {
     sh.active.store(active);
     sh.lock.store(lk);
     sh.probes.store(0);
-    int fin[kThreads] = {0, 0, 0, 0};
-    // wait until every worker has acknowledged round g; false after the grace period
+    // the kind of batch that has used less wall time so far
+    const bool freeMode = tFree < tStep;
+    sh.freeMode.store(freeMode ? 1 : 0);
+    for (int t = 0; t < kThreads; ++t)
+      sh.th[t].nfin.store(0);
+    const int nrounds = freeMode ? kRounds * kLaps : kRounds;
+    // wait until every worker has acknowledged ticket g; false after the grace period
     auto await = [&](long long g) {
       long long t0 = 0;
       unsigned n = 0;
@@ -372,31 +403,35 @@ int run(const drv::Args& a) {
         }
       return true;
     };
-    const long long first = bi * kRounds;
-    for (int r = 0; r < kRounds; ++r) {
+    const long long tBatch = nowNs();
+    const long long firstTicket = ticket + 1;
+    for (int r = 0; r < (freeMode ? 1 : kRounds); ++r) {
       sh.left.store(0, std::memory_order_relaxed);
-      sh.go.store(first + r, std::memory_order_release);
-      if (!await(first + r)) {
+      sh.round.store(r, std::memory_order_relaxed);
+      sh.go.store(++ticket, std::memory_order_release);
+      if (!await(ticket)) {
         stuck = 1;
         break;
       }
-      ++doneRounds;
+      doneRounds += freeMode ? nrounds : 1;
     }
+    (freeMode ? tFree : tStep) += nowNs() - tBatch;
     // ------------------------------------------------------------------------------- the record
     Stats st[kThreads];
+    int fin[kThreads];
     for (int t = 0; t < active; ++t) {
-      // rounds of this batch the thread finished; its statistics were published before the
-      // acknowledgement (those of a stuck thread are the ones of its last finished round)
-      long long d = sh.th[t].done.load(std::memory_order_acquire);
-      fin[t] = d < first ? 0 : (int)(d - first + 1);
-      if (d >= first)
+      // the statistics of a thread were published before its acknowledgement (for a stuck thread
+      // they are those of its last acknowledged ticket of this batch, if any)
+      fin[t] = sh.th[t].nfin.load(std::memory_order_relaxed);
+      if (sh.th[t].done.load(std::memory_order_acquire) >= firstTicket)
         st[t] = sh.th[t].pub;
     }
     std::string s = "{\"e\":\"Batch\",\"lock\":\"";
     s += lk->name();
     s += "\",\"slots\":" + std::to_string(slots);
     s += std::string(",\"kind\":\"") + (upg ? "upg" : "rw") + "\"";
-    s += ",\"batch\":" + std::to_string(bi) + ",\"rounds\":" + std::to_string(kRounds);
+    s += std::string(",\"mode\":\"") + (freeMode ? "free" : "step") + "\"";
+    s += ",\"batch\":" + std::to_string(bi) + ",\"rounds\":" + std::to_string(nrounds);
     s += ",\"stuck\":" + std::to_string(stuck);
     s += ",\"role\":[";
     for (int t = 0; t < active; ++t) {
